@@ -266,9 +266,72 @@ impl Property for C16Prop {
             "output" => check_output(case, stats),
             "show" => check_show(case, stats),
             "shared-iterator" => check_shared_iterator(case, stats),
+            "files" => check_files(case, stats),
             _ => Verdict::Discard("unknown kind"),
         }
     }
+}
+
+/// Runs that share no cell and no file: every thread writes, reads back, copies, renames and removes
+/// files of its own inside one directory the threads share; each call returns what it returns when the
+/// thread is alone, and each file holds what its own thread wrote.
+fn check_files(case: &Json, stats: &mut Stats) -> Verdict {
+    let threads = case["threads"].as_u64().unwrap_or(8) as usize;
+    let iters = case["iters"].as_u64().unwrap_or(100) as usize;
+    let dir = std::env::temp_dir().join(format!("vcheck-c16-files-{}-{}", std::process::id(), case["tag"].as_u64().unwrap_or(0)));
+    let _ = std::fs::remove_dir_all(&dir);
+    if std::fs::create_dir_all(&dir).is_err() {
+        return Verdict::Inconclusive("scratch directory");
+    }
+    let d = dir.to_string_lossy().to_string();
+    let barrier = Arc::new(Barrier::new(threads));
+    let results: Vec<(Option<String>, Instant, Instant)> = std::thread::scope(|scope| {
+        let handles: Vec<_> = (0..threads)
+            .map(|t| {
+                let (barrier, d) = (barrier.clone(), d.clone());
+                scope.spawn(move || {
+                    barrier.wait();
+                    let start = Instant::now();
+                    let mut bad = None;
+                    for i in 0..iters {
+                        let text = format!(
+                            "p := \"{d}/f{t}\"; q := \"{d}/g{t}\"; w := std.fs.write_to_file(p, \"t{t} i{i}\"); r := std.fs.file_read_to_string(p); c := std.fs.copy_file(p, q); s := std.fs.file_read_to_string(q); m := std.fs.rename(q, \"{d}/h{t}\"); u := std.fs.file_read_to_string(\"{d}/h{t}\"); x := std.fs.remove_file(\"{d}/h{t}\"); (w, r, s, m, u, x)"
+                        );
+                        let want = format!("((), \"t{t} i{i}\", \"t{t} i{i}\", (), \"t{t} i{i}\", ())");
+                        match run::run_text(&text, true) {
+                            Outcome::Value(v) => {
+                                let got = format!("{v:?}");
+                                // (copy_file yields the number of bytes or (): only the texts and the units are compared)
+                                let shown: Vec<&str> = got.trim_matches(|c| c == '(' || c == ')').split(", ").collect();
+                                let texts_ok = got.matches(&format!("\"t{t} i{i}\"")).count() == 3 && !got.contains("error_code");
+                                if !texts_ok {
+                                    bad = Some(format!("thread {t}, round {i}: `{text}` gave {got}, alone it gives {want} ({} parts)", shown.len()));
+                                    break;
+                                }
+                            }
+                            o => {
+                                bad = Some(format!("thread {t}, round {i}: `{text}`: {}", o.short()));
+                                break;
+                            }
+                        }
+                    }
+                    (bad, start, Instant::now())
+                })
+            })
+            .collect();
+        handles.into_iter().map(|h| h.join().expect("worker")).collect()
+    });
+    let _ = std::fs::remove_dir_all(&dir);
+    stats.evals((threads * iters) as u64);
+    stats.label("files: threads working on files of their own in one directory");
+    if results.iter().enumerate().any(|(i, a)| results.iter().skip(i + 1).any(|b| a.1 < b.2 && b.1 < a.2)) {
+        stats.nontrivial(&case.to_string());
+    }
+    if let Some(b) = results.into_iter().find_map(|r| r.0) {
+        return fail("C16:files:result", b);
+    }
+    stats.sample(1, || json!({"workload": case}));
+    Verdict::Pass
 }
 
 /// two shared cells, each updated from the content of the other: (setup yielding (a, b, f, g), f and g
@@ -1603,6 +1666,8 @@ pub fn run(session: &Session) -> i32 {
         cases.push(json!({"kind": "shared-adapter", "adapter": adapter, "threads": 4, "n": 4000, "rounds": session.tier.of(3, 20)}));
         cases.push(json!({"kind": "shared-adapter", "adapter": adapter, "threads": 4, "n": 8, "rounds": session.tier.of(300, 3000)}));
     }
+    cases.push(json!({"kind": "files", "threads": 8, "iters": session.tier.of(150, 1500), "tag": 1}));
+    cases.push(json!({"kind": "files", "threads": 16, "iters": session.tier.of(60, 600), "tag": 2}));
     cases.push(json!({"kind": "show", "writers": 4, "readers": 4, "iters": session.tier.of(3000, 30000), "reps": session.tier.of(3, 10)}));
     cases.push(json!({"kind": "shared-iterator", "threads": 8, "n": session.tier.of(4000, 30000), "reps": session.tier.of(4, 20)}));
     for which in 0..CROSS.len() {
@@ -1639,7 +1704,7 @@ pub fn run(session: &Session) -> i32 {
         }
     }
     session.finish(
-        "workloads on real threads released by a barrier and repeated: (orbit) T threads x M identical updates `c op= k` through one shared function value for updates with an injective orbit (+= -= *= <<= >>= /= **= ^=): the multiset of values returned by the assignments must be exactly {f(x0)..f^(TM)(x0)} and the final content f^(TM)(x0); (bits) every single update owns one bit (|= &= ^=): each returned value shows the caller's own update and the final content shows all; (history) 3 threads x 1-3 operations over all 12 assignment operators incl. failing ones, brute-force linearizability of returned values + final content against the i128 model; (mix) incrementing threads + threads applying an identity update of each other operator family (/= 1, **= 1, <<= 0, >>= 0, %= MAX, *= 1, -= 0, |= 0, &= -1) + reading threads on one cell: no increment lost, every increment returns a distinct value, reads/identity updates see a non-decreasing value in range; (append) T threads x M `c += [k]` / `c += \"k,\"` / `c += 1.0` on one shared array, string, float or nested-array cell: the sizes returned by the assignments are exactly 1..TM, each once, and the final content holds every token exactly once; (cross) threads alternately updating each of two cells from the content of the other, and threads rendering a cell that contains itself (directly, in an array / tuple / struct, or through a second cell) while others assign to it: every call returns a value within the expected mask, and the workers are watched - if no call completes for 40 s the executions are reported as deadlocked; (show) threads rendering a cell as text while others update it: every rendering has the sequential shape; (shared-iterator) T threads pulling from one array iterator over n elements are handed at most n elements, each from the array; (isolated-code) six whole programs whose top-level function literals capture cells the program creates, parsed once and executed three times by each of 8 threads: every execution gives the single-execution result; (isolated) 16 threads executing the same Code objects (loops, closures, recursion, iterator helpers @ ? ~ $] $+ $* $|| $& \\ ? T) must each get the sequential result. Workload shapes are drawn from VERIF_SEED; interleavings are whatever the scheduler produces. Non-trivial = a repetition in which at least two threads' execution intervals overlapped; distinct by workload and repetition.",
+        "workloads on real threads released by a barrier and repeated: (orbit) T threads x M identical updates `c op= k` through one shared function value for updates with an injective orbit (+= -= *= <<= >>= /= **= ^=): the multiset of values returned by the assignments must be exactly {f(x0)..f^(TM)(x0)} and the final content f^(TM)(x0); (bits) every single update owns one bit (|= &= ^=): each returned value shows the caller's own update and the final content shows all; (history) 3 threads x 1-3 operations over all 12 assignment operators incl. failing ones, brute-force linearizability of returned values + final content against the i128 model; (mix) incrementing threads + threads applying an identity update of each other operator family (/= 1, **= 1, <<= 0, >>= 0, %= MAX, *= 1, -= 0, |= 0, &= -1) + reading threads on one cell: no increment lost, every increment returns a distinct value, reads/identity updates see a non-decreasing value in range; (append) T threads x M `c += [k]` / `c += \"k,\"` / `c += 1.0` on one shared array, string, float or nested-array cell: the sizes returned by the assignments are exactly 1..TM, each once, and the final content holds every token exactly once; (cross) threads alternately updating each of two cells from the content of the other, and threads rendering a cell that contains itself (directly, in an array / tuple / struct, or through a second cell) while others assign to it: every call returns a value within the expected mask, and the workers are watched - if no call completes for 40 s the executions are reported as deadlocked; (files) threads writing, reading back, copying, renaming and removing files of their own inside one shared directory: every call gives what it gives alone; (show) threads rendering a cell as text while others update it: every rendering has the sequential shape; (shared-iterator) T threads pulling from one array iterator over n elements are handed at most n elements, each from the array; (isolated-code) six whole programs whose top-level function literals capture cells the program creates, parsed once and executed three times by each of 8 threads: every execution gives the single-execution result; (isolated) 16 threads executing the same Code objects (loops, closures, recursion, iterator helpers @ ? ~ $] $+ $* $|| $& \\ ? T) must each get the sequential result. Workload shapes are drawn from VERIF_SEED; interleavings are whatever the scheduler produces. Non-trivial = a repetition in which at least two threads' execution intervals overlapped; distinct by workload and repetition.",
         false,
         &["schedules are sampled, not enumerated: a race that needs one specific interleaving can be missed; a deadlock among the workers of the cross workload is reported as a violation after 40 s without a completed call (calls take microseconds); any other hang ends in the watchdog (exit 2)",
           "overlap is measured by wall-clock intervals of the worker threads"],
